@@ -227,8 +227,8 @@ theorem dest_is_source_refused (a0 : Int) (st : Store) (src : Dir) (replace rech
 /-- a tiny stored data type: two chunks, rows 0 and 1 separated by more than 1000 ns -/
 def exDir : Dir :=
   ({ hdr := { runId := "r", dataType := "src", kind := "things", target := 1, pfx := "src-h" },
-     chunks := [⟨0, 1, 0, 10, some "r", none, some 1, some 4, some 1, some 4, some "src-h-000000"⟩,
-                ⟨1, 1, 10, 5000, some "r", none, some 4000, some 4001, some 4000, some 4001, some "src-h-000001"⟩],
+     chunks := [⟨0, 1, 0, 10, some "r", none, some 1, some 4, some 1, some 4, some "src-h-000000", 0, none⟩,
+                ⟨1, 1, 10, 5000, some "r", none, some 4000, some 4001, some 4000, some 4001, some "src-h-000001", 0, none⟩],
      start := some 0, stop := some 5000, writingEnded := true, exception := false },
    [("src-h-000000", [⟨1, 4, 0⟩]), ("src-h-000001", [⟨4000, 4001, 1⟩])])
 
@@ -298,7 +298,7 @@ theorem rechunk_on_load_old_counterexample :
 
 /-- one stored chunk with two gaps > 1000 ns, source size one row: split 500 ns before row 1 -/
 example : (rechunkOnLoad (-1) 1 ({ exDir.1 with chunks := [⟨0, 3, 0, 5000, some "r", none, some 1, some 4, some 4000, some 4001,
-      some "src-h-000000"⟩] }, [("src-h-000000", [⟨1, 4, 0⟩, ⟨2000, 2001, 1⟩, ⟨4000, 4001, 2⟩])])).toOption.map
+      some "src-h-000000", 0, none⟩] }, [("src-h-000000", [⟨1, 4, 0⟩, ⟨2000, 2001, 1⟩, ⟨4000, 4001, 2⟩])])).toOption.map
       (fun out => out.map fun c => (c.start, c.stop, ids c.rows)) = some [(0, 1500, [0]), (1500, 5000, [1, 2])] := by
   decide +kernel
 
